@@ -314,7 +314,13 @@ def run_case(case, ctx):
             raw = text.encode("utf-8", "surrogateescape")
             f.write_bytes(raw)
             cwd, gargs, fargs = annot.place(rng, root, [f])
-            args = gargs + ["annotate", "-c", "New Holder", "-l", "MIT", "--year", "2021"]
+            holder = "New Holder"
+            if multi and rng.random() < 0.3:
+                # a holder that contains the style's own end marker cannot be written into a multi-line comment: the run
+                # fails, and a failed run leaves every byte where it was
+                holder = f"New {st['multi'][2]} Holder"
+                res.cell("request-that-must-fail")
+            args = gargs + ["annotate", "-c", holder, "-l", "MIT", "--year", "2021"]
             if forced:
                 args += ["--style", short]
             if no_replace:
@@ -338,6 +344,9 @@ def run_case(case, ctx):
                     res.violation("refused-but-changed", "annotate failed yet changed the file", **r.brief())
                 continue
             out = f.read_bytes()
+            if holder != "New Holder":
+                res.cell("request-that-must-fail:succeeded-all-the-same")   # not this property's question (C11's)
+                continue
             if os.path.exists(str(f) + ".license"):
                 # the content classifier took the file for binary (control characters): the header went to FILE.license
                 res.cell("went-to-dot-license")
